@@ -119,10 +119,7 @@ class Assembler:
 
         if stmt.get("type") == "org":
             if first_pass:
-                try:
-                    new_addr = int(str(stmt["args"]), 0)
-                except ValueError:
-                    new_addr = 0
+                new_addr = self._evaluate_operand(str(stmt["args"]))
             else:
                 new_addr = self._evaluate_operand(str(stmt["args"]))
                 self.current_address = new_addr
